@@ -191,7 +191,7 @@ def eval_remover_flow(ctx, R, fname, en_name, en, sugar_kind, expr_remover, is_s
                 positions.append((f_["name"], "opt", "s"))
         problems = []
         unsupported = None
-        worlds = [None] + positions + ([(f_, i_, k_, "nested") for f_, i_, k_ in positions] if not anon else [])
+        worlds = [None] + positions + ([(f_, i_, k_, "nested") for f_, i_, k_ in positions] if not anon else [(f_, i_, k_, "in-call") for f_, i_, k_ in positions if k_ == "e"])
         # an assignment to `_` (the value is discarded, the right-hand side is still desugared and checked)
         discard = vname == "Substitution" and any(f_["name"] == "var" and f_["ty"].replace(" ", "") == "String" for f_ in vdef["fields"])
         if discard:
@@ -206,9 +206,12 @@ def eval_remover_flow(ctx, R, fname, en_name, en, sugar_kind, expr_remover, is_s
             if pos is not None:
                 fld, ix, kind = pos[:3]
                 sg = sugar(lv)
-                if len(pos) > 3:
+                if len(pos) > 3 and pos[3] == "nested":
                     # a tuple inside a tuple: splitting the outer one does not remove the sugar
                     sg = V("Expression", "Tuple", meta=O("outer-sugar-meta"), values=("L", (sg, lv.expr("sugar2"))))
+                elif len(pos) > 3 and pos[3] == "in-call":
+                    # an anonymous component as an argument of a call (e.g. `parallel T(U()(3))`)
+                    sg = V("Expression", "Call", meta=O("call-meta"), id="T", args=("L", (sg,)))
                 planted = sg if kind == "e" else V("Statement", "Return", meta=O("stmt-meta"), value=sg)
                 if ix is None:
                     node[3][fld] = planted
@@ -1397,6 +1400,64 @@ def eval_parallel_prefix(ctx, R):
     ctx.check(R, "anonymous/parallel-prefix-keeps-the-call", not lost, "; ".join(lost) or "`parallel` sets the flag; template, parameters, inputs and the named inputs with their operators are kept", site(EIF, fn))
 
 
+def eval_declared_signals(ctx, R):
+    """`fill_inputs_and_outputs` (the template's input / output lists the anonymous-component expansion binds by) by
+    evaluation on a body with signal declarations in every place a statement can sit: several in one initialisation
+    block, in both branches of an if, in a loop body, in a nested block; inputs and outputs are listed in declaration
+    order, every one of them, intermediates and variables are not."""
+    import passeval
+    from finfun import E, NONE, S, Unsupported
+    from passeval import MMap, O, Panic, Sink, V
+
+    TD = "program_structure/src/program_library/template_data.rs"
+    try:
+        w = passeval.PassWorld([AST, TD], TD)
+    except Exception:  # noqa: BLE001
+        return
+    w.lenient_opaque = True
+    fn = w.free.get("fill_inputs_and_outputs")
+    if fn is None:
+        return ctx.missing(R, "template_data::fill_inputs_and_outputs")
+
+    def decl(nm, kind, dims=0):
+        xt = E("VariableType", "Var") if kind == "var" else S("Signal", E("SignalType", {"in": "Input", "out": "Output", "mid": "Intermediate"}[kind]), ("L", ()))
+        return V("Statement", "Declaration", meta=O("m"), xtype=xt, name=nm, dimensions=("L", tuple(O("dim") for _ in range(dims))), is_constant=False)
+
+    def sub(nm):
+        return V("Statement", "Substitution", meta=O("m"), var=nm, access=("L", ()), op=O("op"), rhe=O("rhe"))
+
+    def init(*stmts):
+        return V("Statement", "InitializationBlock", meta=O("m"), xtype=O("xt"), initializations=("L", tuple(stmts)))
+
+    def block(*stmts):
+        return V("Statement", "Block", meta=O("m"), stmts=("L", tuple(stmts)))
+
+    body = block(
+        init(decl("a", "in"), sub("a"), decl("b", "in", 2)),
+        init(decl("v", "var"), sub("v")),
+        V("Statement", "IfThenElse", meta=O("m"), cond=O("c"), if_case=block(init(decl("o1", "out"))), else_case=S("Some", block(init(decl("c", "in"), decl("m1", "mid"))))),
+        V("Statement", "While", meta=O("m"), cond=O("c"), stmt=block(init(decl("o2", "out", 1), decl("o3", "out")))),
+        block(block(init(decl("d", "in")))),
+        V("Statement", "IfThenElse", meta=O("m"), cond=O("c"), if_case=block(init(decl("o4", "out"))), else_case=NONE),
+    )
+    ins, outs, ind, outd = MMap(), MMap(), Sink(), Sink()
+    try:
+        w.call_fn(fn, [body, ins, outs, ind, outd])
+    except Unsupported as u:
+        return ctx.missing(R, "template_data::fill_inputs_and_outputs/evaluation", "cannot be evaluated (fail closed): %s" % u)
+    except Panic as p_:
+        return ctx.bad(R, "template_data/declared-signals-in-order", "panics (%s)" % p_, site(TD, fn))
+
+    def names(sk):
+        return [x[1][0] if isinstance(x, tuple) and x[0] == "T" else x for x in sk.items]
+
+    gi, go = names(ind), names(outd)
+    wi, wo = ["a", "b", "c", "d"], ["o1", "o2", "o3", "o4"]
+    dims_ok = all((x[1][1] == {"b": 2, "o2": 1}.get(x[1][0], 0)) for x in list(ind.items) + list(outd.items) if isinstance(x, tuple) and x[0] == "T")
+    maps_ok = sorted(k_ for k_, _v in ins.pairs) == sorted(wi) and sorted(k_ for k_, _v in outs.pairs) == sorted(wo)
+    ctx.check(R, "template_data/declared-signals-in-order", gi == wi and go == wo and dims_ok and maps_ok, "inputs %s, outputs %s (expected %s and %s, every declared symbol of every initialisation block, with its number of dimensions)" % (gi, go, wi, wo), site(TD, fn))
+
+
 def rule_binding(ctx):
     R = "C18.4"
     ctx.rule(R, "anonymous-component inputs and outputs are bound in declaration order (never the sorted name maps); a named input takes the operator written next to its own name; the arity is checked; `_` targets consume their value; the grammar keeps every input name")
@@ -1431,6 +1492,7 @@ def rule_binding(ctx):
 
     decided_anon = eval_anonymous(ctx, R)
     eval_parallel_prefix(ctx, R)
+    eval_declared_signals(ctx, R)
     for nm in (("inputs", "outputs") if not decided_anon else ()):
         vs = [v_ for v_ in le.values() if strip(v_)["k"] == "MethodCall" and strip(v_)["method"] == "get_declaration_" + nm]
         okd = len(vs) == 1 and is_template_lookup(strip(vs[0])["recv"])
